@@ -53,6 +53,17 @@ var c08Templates = []c08T{
 	{"receiver, arguments and keyword arguments on several lines", `o := {bar: m{|x, p: 0, q: 0| [x, p, q]}}`, "o.bar(mark(1),\n  q: mark(2),\n  p: mark(3))", 3, `[1, 3, 2]`},
 	{"literals written on several lines", "", "[\n  {\n    zz: mark(1),\n    aa: mark(2)\n  },\n  %{\n    mark(3): mark(4),\n    mark(5): mark(6)\n  }\n]", 6, `[{"aa": 2, "zz": 1}, %{3: 4, 5: 6}]`},
 	{"nested call arguments", `f := {|a, b, x: 0, y: 0, z: 0| [a, b, x, y, z]}`, `[f(mark(1), mark(2), x: mark(3)), f(mark(4), mark(5), y: mark(6), z: mark(7))]`, 7, `[[1, 2, 3, 0, 0], [4, 5, 0, 6, 7]]`},
+	// every chain kind evaluates receiver, arguments and keyword arguments exactly once, also
+	// when the call itself is skipped or fails (nil receiver, nil element, empty receiver)
+	{"lonely chain on nil", `o := {bar: m{|x, p: 0, q: 0| [x, p, q]}}; rn := {|i| nil}; ro := {|i| o}`, `rn(mark(1))&.foo(mark(2), k: mark(3))`, 3, `nil`},
+	{"thoughtful chain on nil", `o := {bar: m{|x, p: 0, q: 0| [x, p, q]}}; rn := {|i| nil}; ro := {|i| o}`, `rn(mark(1))~.foo(mark(2), k: mark(3))`, 3, `nil`},
+	{"lonely chain on a value", `o := {bar: m{|x, p: 0, q: 0| [x, p, q]}}; rn := {|i| nil}; ro := {|i| o}`, `ro(mark(1))&.bar(mark(2), p: mark(3))`, 3, `[2, 3, 0]`},
+	{"thoughtful chain on a value", `o := {bar: m{|x, p: 0, q: 0| [x, p, q]}}; rn := {|i| nil}; ro := {|i| o}`, `ro(mark(1))~.bar(mark(2), p: mark(3))`, 3, `[2, 3, 0]`},
+	{"strict chain on a value", `o := {bar: m{|x, p: 0, q: 0| [x, p, q]}}; rn := {|i| nil}; ro := {|i| o}`, `ro(mark(1))=.bar(mark(2), p: mark(3))`, 3, `[2, 3, 0]`},
+	{"lonely list chain over a nil element", `o := {bar: m{|x, p: 0, q: 0| [x, p, q]}}; rn := {|i| nil}; ro := {|i| o}`, `[nil, o]&@bar(mark(1), p: mark(2))`, 2, `[[1, 2, 0]]`},
+	{"thoughtful list chain over a nil element", `o := {bar: m{|x, p: 0, q: 0| [x, p, q]}}; rn := {|i| nil}; ro := {|i| o}`, `[nil, o]~@bar(mark(1), p: mark(2))`, 2, `[nil, [1, 2, 0]]`},
+	{"list chain over an empty receiver", `o := {bar: m{|x, p: 0, q: 0| [x, p, q]}}; rn := {|i| nil}; ro := {|i| o}`, `[]@bar(mark(1), p: mark(2))`, 2, `[]`},
+	{"lonely chain on the nil literal", "", `nil&.S(mark(1))`, 1, `nil`},
 }
 
 func H_C08_order() {
